@@ -14,7 +14,7 @@ pub mod frame;
 pub mod tables;
 pub mod value;
 
-pub use decode::{decode, decode_all, MAX_DEPTH, MAX_ZERO_WIDTH_ELEMS};
+pub use decode::{decode, decode_all, decode_all_lenient_empty_array, MAX_DEPTH, MAX_ZERO_WIDTH_ELEMS};
 pub use encode::{encode_narrowest, encode_script, encode_widest, encode_with, variant_counts, variants, Variant};
 pub use frame::{encode_frame, parse_frames, split_body, RFrame};
 pub use tables::{
